@@ -105,6 +105,11 @@ type c11Step struct {
 // directories, once the mutex is released - the schedule a slow or descheduled watcher goroutine produces.
 var c11Pacings = []string{"none", "none", "yield", "1ms", "20ms", "query", "hold", "release", "release+settle"}
 
+func isSymlink(p string) bool {
+	st, err := os.Lstat(p)
+	return err == nil && st.Mode()&os.ModeSymlink != 0
+}
+
 func propC11(rec *stats.Rec, sc *scratch, exclude map[string]bool) func(t *rapid.T) {
 	return propC11Paced(rec, sc, exclude, c11Pacings)
 }
@@ -243,12 +248,20 @@ func propC11Paced(rec *stats.Rec, sc *scratch, exclude map[string]bool, pacings 
 			"createWrite": func(t *rapid.T) { // create (or truncate) and write in one go
 				p := filepath.Join(pickDir(t), rapid.SampledFrom(names).Draw(t, "name"))
 				data, desc := c11Content(t, "cw")
+				if isSymlink(p) {
+					// writing through a link changes a file outside the Spec directories ("symlink targets changing" is
+					// not among the changes the statement lists, and nothing in the directory changes)
+					t.Skip("the name is a symbolic link")
+				}
 				_ = os.WriteFile(p, data, 0o644)
 				record(t, fmt.Sprintf("createWrite %s (%s)", rel(p), desc))
 			},
 			"rewriteInChunks": func(t *rapid.T) { // rewrite an existing file in place, in several writes
 				p := pickFile(t)
 				data, desc := c11Content(t, "rw")
+				if isSymlink(p) {
+					t.Skip("the name is a symbolic link")
+				}
 				f, err := os.OpenFile(p, os.O_WRONLY|os.O_TRUNC, 0o644)
 				if err != nil {
 					t.Skip(err.Error())
@@ -296,6 +309,36 @@ func propC11Paced(rec *stats.Rec, sc *scratch, exclude map[string]bool, pacings 
 					t.Skip(err.Error())
 				}
 				record(t, fmt.Sprintf("linkIn %s (%s)", rel(p), desc))
+			},
+			"symlinkIn": func(t *rapid.T) { // a Spec name becomes a symbolic link: dangling, to a directory, or to a file outside
+				d := pickDir(t)
+				p := filepath.Join(d, rapid.SampledFrom(names).Draw(t, "name"))
+				outSeq++
+				var target, desc string
+				switch rapid.IntRange(0, 2).Draw(t, "slTarget") {
+				case 0:
+					target, desc = filepath.Join(outside, fmt.Sprintf("no-such-file%d", outSeq)), "dangling"
+				case 1:
+					target, desc = outside, "to a directory"
+				default:
+					data, cdesc := c11Content(t, "sl")
+					target, desc = filepath.Join(outside, fmt.Sprintf("src%d", outSeq)), "to "+cdesc
+					_ = os.WriteFile(target, data, 0o644)
+				}
+				if _, err := os.Lstat(p); err != nil {
+					if err := os.Symlink(target, p); err != nil { // a create event and nothing else
+						t.Skip(err.Error())
+					}
+				} else {
+					tmp := filepath.Join(outside, fmt.Sprintf("lnk%d", outSeq))
+					if err := os.Symlink(target, tmp); err != nil {
+						t.Skip(err.Error())
+					}
+					if err := os.Rename(tmp, p); err != nil { // moved in over the existing entry: a create event and nothing else
+						t.Skip(err.Error())
+					}
+				}
+				record(t, fmt.Sprintf("symlinkIn %s (%s)", rel(p), desc))
 			},
 			"createEmpty": func(t *rapid.T) { // a new empty file: a create event and nothing else
 				d := pickDir(t)
@@ -460,7 +503,7 @@ func propC11Paced(rec *stats.Rec, sc *scratch, exclude map[string]bool, pacings 
 		}
 		createOnly := false
 		for _, s := range history {
-			if strings.HasPrefix(s.Op, "moveIn") || strings.HasPrefix(s.Op, "linkIn") || strings.HasPrefix(s.Op, "createEmpty") || strings.HasPrefix(s.Op, "removeDir") || strings.HasPrefix(s.Op, "mkdirMissing") || strings.HasPrefix(s.Op, "renameDir") || strings.HasPrefix(s.Op, "swapDir") {
+			if strings.HasPrefix(s.Op, "moveIn") || strings.HasPrefix(s.Op, "linkIn") || strings.HasPrefix(s.Op, "symlinkIn") || strings.HasPrefix(s.Op, "createEmpty") || strings.HasPrefix(s.Op, "removeDir") || strings.HasPrefix(s.Op, "mkdirMissing") || strings.HasPrefix(s.Op, "renameDir") || strings.HasPrefix(s.Op, "swapDir") {
 				createOnly = true
 			}
 		}
